@@ -108,9 +108,12 @@ Inductive op :=
   (* calls that raise: the engine rejects the first write statement (duplicate bucket id,
      unknown bucket -> NOT NULL bucketrow), or update_bucket is given no field *)
   | Rejected
-  (* insert_many into an unknown bucket: the upserts run (and match no row), the bulk
-     statement is rejected on its first row, conditional_commit is not reached *)
-  | InsertManyRejected (ups : list Z).
+  (* insert_many whose bulk statement raises on row |done|+1: the upserts ran, the rows
+     before the failing one stay in the open transaction, conditional_commit is not
+     reached.  done = []: unknown bucket (NOT NULL bucketrow on the first row).
+     done <> []: a row whose start/end does not fit SQLite's 64-bit INTEGER
+     (OverflowError at bind time) after rows that were fine. *)
+  | InsertManyFailed (ups done : list Z).
 
 Definition script_replace (w : Z) : list micro := [Exec w; CondCommit 1].
 Definition script_get_metadata : list micro := [Read].
@@ -132,10 +135,15 @@ Definition expand (o : op) : list micro :=
   | Buckets => [Read]
   | GetMetadata => script_get_metadata
   | Rejected => []
-  | InsertManyRejected ups => flat_map script_replace ups
+  | InsertManyFailed ups done => flat_map script_replace ups ++ [ExecMany done]
   end.
 
 Definition expand_all (h : list op) : list micro := flat_map expand h.
+
+(* calls all of whose writes are counted (or committed) before they return: everything
+   except a bulk insert that failed after at least one row *)
+Definition counted (o : op) : Prop :=
+  match o with InsertManyFailed _ (_ :: _) => False | _ => True end.
 
 (* the writes a micro-step sequence issues, in issue order *)
 Definition writes_of_micro (m : micro) : list Z :=
